@@ -4,6 +4,8 @@ import FeatModel.Model.Solver.IluSpec
 import FeatModel.Model.Solver.IluLevels
 import FeatModel.Model.Solver.Blocked
 import FeatModel.Model.LA.Filter
+import FeatModel.Model.Solver.TinyInv
+import FeatModel.Model.Solver.Expand
 /-!
 line-protocol driver for the C08 models (stationary preconditioners)
 
@@ -64,16 +66,18 @@ def filtP (bs : Nat) : P FDesc := do
 
 /-- the filter as (unit-filter block indices, `filter_cor` of the other filter types on the pod array);
     `none` = the filter constructor aborts.  Mean / slip filters are the C06 models `LA.Filter.MeanF` / `SlipF`. -/
-def filtOf (bs n : Nat) : FDesc → Option (List Nat × (Array Rat → Option (Array Rat)))
-  | .unit idx => some (idx, some)
-  | .none => some ([], some)
+def filtOf (bs n : Nat) : FDesc →
+    Option (List Nat × (Array Rat → Option (Array Rat)) × (Array Rat → Option (Array Rat)))
+  | .unit idx => some (idx, some, some)
+  | .none => some ([], some, some)
   | .mean prim dual =>
     match LA.Filter.MeanF.mk3 (fun v => decide (epsQ < v)) prim dual 0 with
     | none => none
-    | some f => some ([], fun y => (f.filterCor y.toList).map List.toArray)
+    | some f => some ([], (fun y => (f.filterCor y.toList).map List.toArray),
+        (fun y => (f.filterRhs y.toList).map List.toArray))
   | .slip es =>
     let f : LA.Filter.SlipF Rat := { bs := bs, size := n, es := LA.Filter.normalize es }
-    some ([], fun y => (f.filter y.toList).map List.toArray)
+    some ([], (fun y => (f.filter y.toList).map List.toArray), (fun y => (f.filter y.toList).map List.toArray))
 
 def showR (v : Array Rat) : String := s!"R {showRatsL v.toList} U1"
 
@@ -84,7 +88,7 @@ def matVec (bs : Nat) (m v : Array Rat) : Array Rat :=
   Array.ofFn (n := bs) fun i => (List.range bs).foldl (fun acc j => acc + m.getD (i.val * bs + j) 0 * v.getD j 0) 0
 
 /-- exact inverse by Gauss–Jordan elimination (the inverse is unique, so any exact method models `set_inverse`) -/
-def matInv (bs : Nat) (m : Array Rat) : Array Rat := Id.run do
+def gaussJordan (bs : Nat) (m : Array Rat) : Array Rat := Id.run do
   let mut a : Array (Array Rat) := Array.ofFn (n := bs) fun i => Array.ofFn (n := 2 * bs) fun j =>
     if j.val < bs then m.getD (i.val * bs + j.val) 0 else if j.val - bs = i.val then 1 else 0
   for c in [0:bs] do
@@ -104,6 +108,10 @@ def matInv (bs : Nat) (m : Array Rat) : Array Rat := Id.run do
         let f := old.getD c 0
         a := a.setIfInBounds r (Array.ofFn (n := 2 * bs) fun j => old.getD j.val 0 - f * rowN.getD j.val 0)
   return Array.ofFn (n := bs * bs) fun k => (a.getD (k.val / bs) #[]).getD (bs + k.val % bs) 0
+
+/-- `Tiny::Matrix::set_inverse`: the closed formulas of the source for bs ≤ 3 (`Model/Solver/TinyInv`), exact
+    Gauss–Jordan for the larger block sizes -/
+def matInv (bs : Nat) (m : Array Rat) : Array Rat := tinyInv bs (gaussJordan bs) m
 
 def blkOps (bs : Nat) : Blk.Ops Rat (Array Rat) (Array Rat) :=
   { zero := Array.replicate bs 0, zeroB := Array.replicate (bs * bs) 0,
@@ -173,27 +181,7 @@ def runBlocked (bs : Nat) (ssor : Bool) (ω : Rat) (fidx : List Nat) (post : Arr
       | some z => runBlocked bs ssor ω fidx post A r (showR z :: acc)
   | A, _ :: r, acc => runBlocked bs ssor ω fidx post A r acc
 
-/-- BCSR → scalar CSR with `n·bs` rows (block `(i, c)`, entry `(a, b)` ↦ `(i·bs + a, c·bs + b)`); Jacobi, matrix,
-    scale and diagonal preconditioners on BCSR act exactly like their scalar versions on the expanded matrix -/
-def expandVals (bs : Nat) (A : Csr Rat) (v : Array Rat) : Array Rat := Id.run do
-  let mut out : Array Rat := #[]
-  for i in [0:A.rows] do
-    for a in [0:bs] do
-      for k in [A.rowPtr.getD i 0 : A.rowPtr.getD (i + 1) 0] do
-        for b in [0:bs] do
-          out := out.push (v.getD (k * bs * bs + a * bs + b) 0)
-  return out
-
-def expandBcsr (bs : Nat) (A : Csr Rat) : Csr Rat := Id.run do
-  let mut rp : Array Nat := #[0]
-  let mut ci : Array Nat := #[]
-  for i in [0:A.rows] do
-    for _a in [0:bs] do
-      for k in [A.rowPtr.getD i 0 : A.rowPtr.getD (i + 1) 0] do
-        for b in [0:bs] do
-          ci := ci.push (A.colInd.getD k 0 * bs + b)
-      rp := rp.push ci.size
-  return { rows := A.rows * bs, cols := A.cols * bs, rowPtr := rp, colInd := ci, val := expandVals bs A A.val }
+-- BCSR → scalar CSR: `expandCsr` / `expandVals` of Model/Solver/Expand.lean (proved to commute with apply)
 
 /-- arrays of the right sizes with arbitrary non-zero content -/
 def garbage (s : IluSym) : IluNum Rat :=
@@ -216,8 +204,8 @@ def handle : P String := do
     match kind?, filtOf 1 A.rows fd with
     | none, _ => throw s!"unknown kind {kindS}"
     | some _, none => pure "ABORT"
-    | some kind, some (fidx, post) =>
-      let c : Cfg Rat := { kind := kind, ω := ω, fidx := fidx, post := post }
+    | some kind, some (fidx, post, postDef) =>
+      let c : Cfg Rat := { kind := kind, ω := ω, fidx := fidx, post := post, postDef := postDef }
       match runSteps tiny c A PState.empty steps [] with
       | .error .abort => pure "ABORT"
       | .error .exc => pure "EXC"
@@ -233,7 +221,7 @@ def handle : P String := do
     let steps ← listOf stepP
     match filtOf bs A.rows fd with
     | none => pure "ABORT"
-    | some (fidx, post) =>
+    | some (fidx, post, _) =>
     if kindS == "ilu" then
       let Ab : Csr (BMat bs) := toBlockCsr bs A
       let stepsB : List (Step (BMat bs)) := steps.map fun st => match st with
@@ -245,6 +233,15 @@ def handle : P String := do
       let postB : Array (BMat bs) → Option (Array (BMat bs)) := fun y =>
         (post (flat (y.map (matToVec bs)))).map fun z => (chunks bs z).map (vecToMat bs)
       let c : Cfg (BMat bs) := { kind := .ilu pB, ω := 1, fidx := fidx, post := postB }
+      -- the hypothesis of `C08.ilu_factor_blocked`: every stored inverted pivot block v of the factorisation of the
+      -- initial matrix is invertible and `1 / ·` inverts it (evaluated here on every case)
+      let pivOk : Bool := match setStructCsr Ab.rows Ab.rowPtr Ab.colInd with
+        | none => true
+        | some s0 =>
+          let s := factorizeSymbolic s0 pB
+          let f := factorizeNumeric s (copyDataCsr s Ab (allocData s))
+          f.dataD.any (· = 0) || f.dataD.all fun v => decide (v * (1 / v) = 1 ∧ (1 / v) * v = 1)
+      if !pivOk then pure "MODEL-SPLIT" else
       match runSteps (fun _ => false) c Ab PState.empty stepsB [] with
       | .error .abort => pure "ABORT"
       | .error .exc => pure "EXC"
@@ -266,7 +263,7 @@ def handle : P String := do
       | none => pure "NOMODEL"
       | some kind =>
         let isDiag := kindS == "diag"
-        let Ae : Csr Rat := if isDiag then { A with val := A.val.extract 0 (A.rows * bs) } else expandBcsr bs A
+        let Ae : Csr Rat := if isDiag then { A with val := A.val.extract 0 (A.rows * bs) } else expandCsr bs A
         let stepsE := steps.map fun st => match st with
           | .update v => if isDiag then Step.update (v.extract 0 (A.rows * bs)) else Step.update (expandVals bs A v)
           | st => st
